@@ -72,7 +72,7 @@ static void t_walk(qtreetbl_t *t, int nm, res_t *r) {
     qtreetbl_obj_t o; memset(&o, 0, sizeof o); r->s[0] = 0; r->failed = 0; int n = 0;
     /* a getnext that fails with ENOMEM leaves the cursor on its element: the caller may call again (after a single failure that succeeds and the walk must be complete) */
     int retries = 0;
-    for (;;) { errno = 0; if (!t->getnext(t, &o, nm)) { if (errno == ENOMEM) { if (++retries <= 2) continue; r->failed = 1; } break; } if (++n > 10) break; radd(r, "%s=%.*s,", o.name ? (char *)o.name : "NULL", (int)o.datasize, o.data ? (char *)o.data : "NULL"); if (nm) { free(o.name); free(o.data); } }
+    for (;;) { errno = 0; if (!t->getnext(t, &o, nm)) { if (errno == ENOMEM) { if (++retries <= 2) continue; r->failed = 1; } break; } n++; radd(r, "%s=%.*s,", o.name ? (char *)o.name : "NULL", (int)o.datasize, o.data ? (char *)o.data : "NULL"); if (nm) { free(o.name); free(o.data); } if (n > 40) break; }
 }
 static void t_put(void *c, int a, int b, res_t *r) { qtreetbl_t *t = c; switch (b) { case 0: rb(r, t->put(t, KS[a], "w2", 3)); break; case 1: rb(r, t->putstr(t, KS[a], "w2")); break; case 2: rb(r, t->putstrf(t, KS[a], "w%d", 2)); break; case 3: rb(r, t->putobj(t, KS[a], strlen(KS[a]) + 1, "w2", 3)); break; case 4: rb(r, t->putobj(t, KS[a], strlen(KS[a]) + 1, NULL, 0)); break; } }
 static void t_putnull(void *c, int a, int b, res_t *r) { qtreetbl_t *t = c; (void)a; if (b == 0) rb(r, t->put(t, NULL, "x", 2)); else rb(r, t->putobj(t, "x", 0, "x", 2)); }
@@ -118,7 +118,7 @@ static void h_digest(void *c, char *out) { qhashtbl_t *t = c; char *p = out; p +
 static void h_destroy(void *c) { ((qhashtbl_t *)c)->free(c); }
 static void *h_mutex(void *c) { return ((qhashtbl_t *)c)->qmutex; }
 static void h_lock(void *c) { ((qhashtbl_t *)c)->lock(c); } static void h_unlock(void *c) { ((qhashtbl_t *)c)->unlock(c); }
-static void h_walk(qhashtbl_t *t, int nm, res_t *r) { qhashtbl_obj_t o; memset(&o, 0, sizeof o); r->s[0] = 0; r->failed = 0; int n = 0; for (;;) { errno = 0; if (!t->getnext(t, &o, nm)) { if (errno == ENOMEM) r->failed = 1; break; } if (++n > 10) break; radd(r, "%s=%.*s,", o.name, (int)o.size, (char *)o.data); if (nm) { free(o.name); free(o.data); } } }
+static void h_walk(qhashtbl_t *t, int nm, res_t *r) { qhashtbl_obj_t o; memset(&o, 0, sizeof o); r->s[0] = 0; r->failed = 0; int n = 0; for (;;) { errno = 0; if (!t->getnext(t, &o, nm)) { if (errno == ENOMEM) r->failed = 1; break; } n++; radd(r, "%s=%.*s,", o.name, (int)o.size, (char *)o.data); if (nm) { free(o.name); free(o.data); } if (n > 40) break; } }
 static void h_put(void *c, int a, int b, res_t *r) { qhashtbl_t *t = c; switch (b) { case 0: rb(r, t->put(t, KS[a], "w2", 3)); break; case 1: rb(r, t->putstr(t, KS[a], "w2")); break; case 2: rb(r, t->putstrf(t, KS[a], "w%d", 2)); break; case 3: rb(r, t->putint(t, KS[a], 12345)); break; case 4: rb(r, t->put(t, NULL, "x", 2)); break; case 5: rb(r, t->putstr(t, KS[a], NULL)); break; } }
 static void h_get(void *c, int a, int b, res_t *r) { qhashtbl_t *t = c; size_t sz = 0; if (b < 2) { void *d = t->get(t, KS[a], &sz, b); rp(r, d, d ? sz : 0, b); } else if (b == 2) { char *d = t->getstr(t, KS[a], true); rp(r, d, d ? strlen(d) + 1 : 0, 1); } else if (b == 3) { rn(r, t->getint(t, KS[a]), 0); } else rp(r, t->get(t, NULL, NULL, true), 0, 1); }
 static void h_remove(void *c, int a, int b, res_t *r) { qhashtbl_t *t = c; rb(r, b ? t->remove(t, NULL) : t->remove(t, KS[a])); }
@@ -143,13 +143,14 @@ static int LT_OPT;
 static char lt_path[600], lt_loadpath[600];
 static void *lt_make(int st, int ts) { qlisttbl_t *t = qlisttbl(LT_OPT | (ts ? QLISTTBL_THREADSAFE : 0)); if (!t) return NULL;
     /* state index = sequence of <= 3 puts over {a,b,c}: 0 empty, 1..3 length 1, 4..12 length 2, 13..39 length 3 */
+    if (st >= 40) { int n = st == 40 ? 12 : 21; for (int i = 0; i < n; i++) t->putstr(t, KS[0], i & 1 ? "v2" : "v"); t->putstr(t, KS[2], "v"); return t; }   /* 12 / 21 entries of one name: beyond the 10 / 20 element steps of getmulti's result array */
     int len = st == 0 ? 0 : st < 4 ? 1 : st < 13 ? 2 : 3, code = st == 0 ? 0 : st < 4 ? st - 1 : st < 13 ? st - 4 : st - 13;
     for (int i = 0; i < len; i++) { t->putstr(t, KS[code % 3], i == 1 ? "v2" : "v"); code /= 3; } return t; }
 static void lt_digest(void *c, char *out) { qlisttbl_t *t = c; char *p = out; p += sprintf(p, "n=%zu ", t->size(t)); int g = 0; qlisttbl_obj_t *last = NULL; for (qlisttbl_obj_t *o = t->first; o && g < 12; o = o->next, g++) { p += sprintf(p, "%s=%zu:%.4s%s ", o->name, o->size, (char *)o->data, o->prev == last ? "" : "!prev"); last = o; } p += sprintf(p, "%s", t->last == last ? "" : "!last"); }
 static void lt_destroy(void *c) { ((qlisttbl_t *)c)->free(c); }
 static void *lt_mutex(void *c) { return ((qlisttbl_t *)c)->qmutex; }
 static void lt_lock(void *c) { ((qlisttbl_t *)c)->lock(c); } static void lt_unlock(void *c) { ((qlisttbl_t *)c)->unlock(c); }
-static void lt_walk(qlisttbl_t *t, const char *name, int nm, res_t *r) { qlisttbl_obj_t o; memset(&o, 0, sizeof o); r->s[0] = 0; r->failed = 0; int n = 0; for (;;) { errno = 0; if (!t->getnext(t, &o, name, nm)) { if (errno == ENOMEM) r->failed = 1; break; } if (++n > 10) break; radd(r, "%s=%.*s,", o.name, (int)o.size, (char *)o.data); if (nm) { free(o.name); free(o.data); } } }
+static void lt_walk(qlisttbl_t *t, const char *name, int nm, res_t *r) { qlisttbl_obj_t o; memset(&o, 0, sizeof o); r->s[0] = 0; r->failed = 0; int n = 0; for (;;) { errno = 0; if (!t->getnext(t, &o, name, nm)) { if (errno == ENOMEM) r->failed = 1; break; } n++; radd(r, "%s=%.*s,", o.name, (int)o.size, (char *)o.data); if (nm) { free(o.name); free(o.data); } if (n > 40) break; } }
 static void lt_put(void *c, int a, int b, res_t *r) { qlisttbl_t *t = c; switch (b) { case 0: rb(r, t->put(t, KS[a], "w2", 3)); break; case 1: rb(r, t->putstr(t, KS[a], "w2")); break; case 2: rb(r, t->putstrf(t, KS[a], "w%d", 2)); break; case 3: rb(r, t->putint(t, KS[a], 12345)); break; case 4: rb(r, t->put(t, NULL, "x", 2)); break; case 5: rb(r, t->put(t, KS[a], NULL, 0)); break; } }
 static void lt_get(void *c, int a, int b, res_t *r) { qlisttbl_t *t = c; size_t sz = 0; if (b < 2) { void *d = t->get(t, KS[a], &sz, b); rp(r, d, d ? sz : 0, b); } else if (b == 2) { char *d = t->getstr(t, KS[a], true); rp(r, d, d ? strlen(d) + 1 : 0, 1); } else if (b == 3) rn(r, t->getint(t, KS[a]), 0); else rp(r, t->get(t, NULL, NULL, true), 0, 1); }
 static void lt_getmulti(void *c, int a, int b, res_t *r) { qlisttbl_t *t = c; size_t n = 99; errno = 0; qlisttbl_data_t *d = t->getmulti(t, KS[a], b, &n); int e = errno; r->failed = (d == NULL && e == ENOMEM); sprintf(r->s, "%s n=%zu ", d ? "arr" : "NULL", n); if (d) { for (size_t i = 0; i < n && i < 8; i++) radd(r, "%.*s,", (int)d[i].size, (char *)d[i].data); t->freemulti(d); } }
@@ -198,7 +199,7 @@ static void l_digest(void *c, char *out) { qlist_t *l = L_OF(c); char *p = out; 
 static void l_destroy(void *c) { if (L_KIND == 0) ((qlist_t *)c)->free(c); else if (L_KIND == 1) ((qqueue_t *)c)->free(c); else if (L_KIND == 2) ((qstack_t *)c)->free(c); else ((qgrow_t *)c)->free(c); }
 static void *l_mutex(void *c) { return L_OF(c)->qmutex; }
 static void l_lock(void *c) { qlist_t *l = L_OF(c); l->lock(l); } static void l_unlock(void *c) { qlist_t *l = L_OF(c); l->unlock(l); }
-static void l_walk(qlist_t *l, int nm, res_t *r) { qlist_obj_t o; memset(&o, 0, sizeof o); r->s[0] = 0; r->failed = 0; int n = 0; for (;;) { errno = 0; if (!l->getnext(l, &o, nm)) { if (errno != ENOENT) r->failed = 1; break; } if (++n > 10) break; radd(r, "%zu:%.*s,", o.size, (int)(o.size < 3 ? o.size : 3), (char *)o.data); if (nm) free(o.data); } }
+static void l_walk(qlist_t *l, int nm, res_t *r) { qlist_obj_t o; memset(&o, 0, sizeof o); r->s[0] = 0; r->failed = 0; int n = 0; for (;;) { errno = 0; if (!l->getnext(l, &o, nm)) { if (errno != ENOENT) r->failed = 1; break; } n++; radd(r, "%zu:%.*s,", o.size, (int)(o.size < 3 ? o.size : 3), (char *)o.data); if (nm) free(o.data); if (n > 40) break; } }
 static void l_add(void *c, int a, int b, res_t *r) { qlist_t *l = c; switch (b) { case 0: rb(r, l->addfirst(l, "zz", 3)); break; case 1: rb(r, l->addlast(l, "zz", 3)); break; case 2: rb(r, l->addat(l, a, "zz", 3)); break; case 3: rb(r, l->addlast(l, NULL, 1)); break; case 4: rb(r, l->addat(l, 0, "x", 0)); break; } }
 static void l_get(void *c, int a, int b, res_t *r) { qlist_t *l = c; size_t sz = 0; void *d = b < 2 ? l->getat(l, a, &sz, b) : b == 2 ? l->getfirst(l, &sz, true) : l->getlast(l, &sz, true); rp(r, d, d ? sz : 0, b != 0); }
 static void l_pop(void *c, int a, int b, res_t *r) { qlist_t *l = c; size_t sz = 0; void *d = b == 0 ? l->popat(l, a, &sz) : b == 1 ? l->popfirst(l, &sz) : l->poplast(l, &sz); rp(r, d, d ? sz : 0, 1); }
@@ -259,7 +260,7 @@ static void v_digest(void *c, char *out) { qvector_t *v = c; char *p = out; p +=
 static void v_destroy(void *c) { ((qvector_t *)c)->free(c); }
 static void *v_mutex(void *c) { return ((qvector_t *)c)->qmutex; }
 static void v_lock(void *c) { ((qvector_t *)c)->lock(c); } static void v_unlock(void *c) { ((qvector_t *)c)->unlock(c); }
-static void v_walk(qvector_t *v, int nm, res_t *r) { qvector_obj_t o; memset(&o, 0, sizeof o); r->s[0] = 0; r->failed = 0; int n = 0; for (;;) { errno = 0; if (!v->getnext(v, &o, nm)) { if (errno == ENOMEM) r->failed = 1; break; } if (++n > 10) break; radd(r, "%.4s,", (char *)o.data); if (nm) free(o.data); } }
+static void v_walk(qvector_t *v, int nm, res_t *r) { qvector_obj_t o; memset(&o, 0, sizeof o); r->s[0] = 0; r->failed = 0; int n = 0; for (;;) { errno = 0; if (!v->getnext(v, &o, nm)) { if (errno == ENOMEM) r->failed = 1; break; } n++; radd(r, "%.4s,", (char *)o.data); if (nm) free(o.data); if (n > 40) break; } }
 static int VX = 0x5a5a5a5a;
 static void v_add(void *c, int a, int b, res_t *r) { qvector_t *v = c; switch (b) { case 0: rb(r, v->addfirst(v, &VX)); break; case 1: rb(r, v->addlast(v, &VX)); break; case 2: rb(r, v->addat(v, a, &VX)); break; case 3: rb(r, v->addlast(v, NULL)); break; } }
 static void v_get(void *c, int a, int b, res_t *r) { qvector_t *v = c; void *d = b < 2 ? v->getat(v, a, b) : b == 2 ? v->getfirst(v, true) : v->getlast(v, true); rp(r, d, d ? 4 : 0, b != 0); }
@@ -427,7 +428,7 @@ static int setup_subject(const char *name) {
 #define SETS(NM, NST, MK, DG, DS, MX, LK, UL, SF, OPS_, NOPS_) do { SUBJ.name = NM; SUBJ.nstates = NST; SUBJ.make = MK; SUBJ.digest = DG; SUBJ.destroy = DS; SUBJ.mutex = MX; SUBJ.lock = LK; SUBJ.unlock = UL; SUBJ.suffix = SF; SUBJ.ops = OPS_; SUBJ.nops = NOPS_; } while (0)
     if (!strcmp(name, "qtreetbl")) { t_genstates(1); t_build(); SETS("qtreetbl", T_NSTATES, t_make, t_digest, t_destroy, t_mutex, t_lock, t_unlock, t_suffix, T_OPS, T_NOPS); }
     else if (!strncmp(name, "qhashtbl", 8)) { H_RANGE = name[8] ? atoi(name + 9) : 2; h_build(); SETS(name, (int)(sizeof H_STATES / sizeof H_STATES[0]), h_make, h_digest, h_destroy, h_mutex, h_lock, h_unlock, h_suffix, H_OPS, H_NOPS); }
-    else if (!strncmp(name, "qlisttbl", 8)) { int o = name[8] ? atoi(name + 9) : 0; LT_OPT = o << 1; lt_build(); SETS(name, 40, lt_make, lt_digest, lt_destroy, lt_mutex, lt_lock, lt_unlock, lt_suffix, LT_OPS, LT_NOPS); }
+    else if (!strncmp(name, "qlisttbl", 8)) { int o = name[8] ? atoi(name + 9) : 0; LT_OPT = o << 1; lt_build(); SETS(name, 42, lt_make, lt_digest, lt_destroy, lt_mutex, lt_lock, lt_unlock, lt_suffix, LT_OPS, LT_NOPS); }
     else if (!strcmp(name, "qlist") || !strcmp(name, "qqueue") || !strcmp(name, "qstack") || !strcmp(name, "qgrow")) { L_KIND = !strcmp(name, "qlist") ? 0 : !strcmp(name, "qqueue") ? 1 : !strcmp(name, "qstack") ? 2 : 3; l_build(); SETS(name, L_KIND == 3 ? 4 : L_KIND == 0 ? 5 : 6, l_make, l_digest, l_destroy, l_mutex, l_lock, l_unlock, l_suffix, L_OPS, L_NOPS); if (L_KIND == 3) SUBJ.suffix = g_suffix; }
     else if (!strncmp(name, "qvector", 7)) { V_POL = name[7] ? atoi(name + 8) : 0; v_build(); SETS(name, 15, v_make, v_digest, v_destroy, v_mutex, v_lock, v_unlock, v_suffix, V_OPS, V_NOPS); }
     else if (!strcmp(name, "qhasharr")) { ha_build(); SETS("qhasharr", 4, ha_make, ha_digest, ha_destroy, ha_mutex, ha_nolock, ha_nolock, ha_suffix, HA_OPS, HA_NOPS); }
